@@ -186,9 +186,24 @@ mod dnssim {
         }
     }
 
-    /// answers the first datagram on port 53 with fixed bytes
+    /// answers the first datagram on port 53 with fixed bytes (`None`: reads it and never answers)
     struct FakeDns {
-        response: Vec<u8>,
+        response: Option<Vec<u8>>,
+    }
+
+    /// ends the simulation after a while (the resolver may be left waiting for an answer that never comes)
+    struct Stopper;
+    #[async_trait::async_trait]
+    impl Protocol for Stopper {
+        async fn start(&self, shutdown: Shutdown, initialized: Arc<Barrier>, _machine: Arc<Machine>) -> Result<(), StartError> {
+            initialized.wait().await;
+            tokio::time::sleep(Duration::from_millis(500)).await;
+            shutdown.shut_down_with_status(ExitStatus::Status(8));
+            Ok(())
+        }
+        fn demux(&self, _m: Message, _c: Arc<dyn Session>, _k: Control, _ma: Arc<Machine>) -> Result<(), DemuxError> {
+            Ok(())
+        }
     }
     #[async_trait::async_trait]
     impl Protocol for FakeDns {
@@ -200,7 +215,9 @@ mod dnssim {
             initialized.wait().await;
             if let Ok(mut s) = listen.accept().await {
                 if s.recv_msg().await.is_ok() {
-                    let _ = s.send(self.response.clone());
+                    if let Some(r) = &self.response {
+                        let _ = s.send(r.clone());
+                    }
                 }
                 // keep the socket alive until the simulation ends
                 tokio::time::sleep(Duration::from_millis(2000)).await;
@@ -222,11 +239,11 @@ mod dnssim {
         async fn start(&self, shutdown: Shutdown, initialized: Arc<Barrier>, machine: Arc<Machine>) -> Result<(), StartError> {
             initialized.wait().await;
             let dns = machine.protocol::<DnsClient>().unwrap();
-            let r = tokio::time::timeout(Duration::from_millis(600), dns.get_host_by_name(self.name.clone(), machine.clone())).await;
+            // no timeout around the call: when no answer comes the resolver is still inside `recv_msg` at shutdown
+            let r = dns.get_host_by_name(self.name.clone(), machine.clone()).await;
             *self.result.lock().unwrap() = Some(match r {
-                Ok(Ok(ip)) => format!("ip {}", u32::from_be_bytes(ip.to_bytes())),
-                Ok(Err(_)) => "err".to_string(),
-                Err(_) => "timeout".to_string(),
+                Ok(ip) => format!("ip {}", u32::from_be_bytes(ip.to_bytes())),
+                Err(_) => "err".to_string(),
             });
             shutdown.shut_down_with_status(ExitStatus::Status(7));
             Ok(())
@@ -282,7 +299,7 @@ mod dnssim {
                     Arp::new(),
                     Pci::new([network.clone()]),
                     SocketAPI::new(Some(Ipv4Address::DNS_AUTH)),
-                    FakeDns { response: unhex(h) },
+                    FakeDns { response: if *h == "noreply" { None } else { Some(unhex(h)) } },
                 ],
                 new_machine_arc![
                     Udp::new(),
@@ -293,6 +310,7 @@ mod dnssim {
                     SocketAPI::new(Some(client_ip)),
                     DnsClient::new(),
                     Resolver { name: String::from_utf8(unhex(n)).unwrap_or_default(), result: result.clone() },
+                    Stopper,
                 ],
             ],
             _ => {
@@ -301,6 +319,13 @@ mod dnssim {
             }
         };
         let status = rt.block_on(run_internet_with_timeout(&machines, Duration::from_secs(3)));
+        // a task that was woken by the shutdown may still be finishing (or panicking: the hook then exits)
+        for _ in 0..30 {
+            if result.lock().unwrap().is_some() {
+                break;
+            }
+            std::thread::sleep(Duration::from_millis(10));
+        }
         let r = result.lock().unwrap().clone().unwrap_or_else(|| format!("no-result {:?}", status));
         println!("OUTCOME {}", r);
         // do not wait for runtime shutdown (tasks may be parked on sockets)
@@ -322,6 +347,8 @@ mod dnssim {
                     ("dns_server.rs", t) if t.starts_with("let req_msg = DnsMessage::from_bytes(") && t.contains(".unwrap()") => "panic:unwrap:dns_server_from_bytes".to_string(),
                     ("dns_server.rs", t) if t.starts_with("let name = req_msg.question.query_name().unwrap()") => "panic:unwrap:dns_server_query_name".to_string(),
                     ("dns_server.rs", t) if t.starts_with("DnsServer::respond_to_query(table, socket).await.unwrap()") => "panic:unwrap:dns_server_task".to_string(),
+                    ("dns_server.rs", t) if t.starts_with("let response = socket.recv(80).await.unwrap()") => "panic:unwrap:dns_server_recv".to_string(),
+                    ("dns_client.rs", t) if t.starts_with("let resp = socket.recv_msg().await.unwrap()") => "panic:unwrap:dns_client_recv".to_string(),
                     ("dns_client.rs", t) if t.starts_with("let res_msg = DnsMessage::from_bytes(resp.iter()).unwrap()") => "panic:unwrap:dns_client_from_bytes".to_string(),
                     ("dns_client.rs", t) if t.starts_with("let name_to_add = String::from_utf8(res_msg.answer.name).unwrap()") => "panic:unwrap:dns_client_answer_name".to_string(),
                     ("dns_client.rs", t) if t.starts_with("let ip_to_add = Ipv4Address::new([rdata[0]") => "panic:index:dns_client_rdata".to_string(),
@@ -431,6 +458,10 @@ mod dnssim {
         ops.push(format!("cli {} {}", hex(name), hex(&spec_dns(&w))));
         let n = rng.below(40) as usize + 1;
         ops.push(format!("cli {} {}", hex(name), hex(&rng.bytes(n))));
+        if rng.chance(1, 4) {
+            ops.push(format!("cli {} noreply", hex(name)));
+            ops.push("srv -".to_string());
+        }
         ops
     }
 
